@@ -17,7 +17,7 @@ It also computes (untrusted, verified by the Lean checker `Rec.check`):
     is covered by correspondence only),
   * the candidate relation between `lang` and `unsep tx unproved`,
   * the lexer hypotheses used (`nonempty`, `alts`).
-Python replicas of Rec.peel / expand / align live here only to *find* the relation.
+Python replicas of Rec.peel / align / sepA / sepB live here only to *find* the relation.
 """
 import os
 import re
@@ -389,7 +389,7 @@ def node_code(nd):
     if nd.get("ws") is not None or nd.get("skipws") is not None:
         raise TranslateError(f"node with ws/skipws override (rule {nd['rule']!r}): outside the modelled fragment")
     ks = kids(nd)
-    if len(ks) > 15 or any(k >= 4096 for k in ks) or nd.get("tok", 0) >= 4096:
+    if len(ks) > 18 or any(k >= 4096 for k in ks) or nd.get("tok", 0) >= 4096 or (nd.get("sep") or 0) >= 4096:
         raise TranslateError("node does not fit the packed layout")
     c = KCODE[nd["k"]] | (int(nd["root"]) << 4) | (int(nd["sup"]) << 5) | (int(bool(nd.get("eol"))) << 6)
     if nd.get("sep") is not None:
@@ -397,7 +397,7 @@ def node_code(nd):
     c |= nd.get("tok", 0) << 8
     c |= len(ks) << 32
     for i, k in enumerate(ks):
-        c |= k << (36 + 12 * i)
+        c |= k << (40 + 12 * i)
     assert c < (1 << NODE_W)
     return c
 
